@@ -138,7 +138,7 @@ mod simd_blocks {
 }
 
 // ---------------------------------------------------------------------------------------------- the cursor (src/iter.rs)
-const N: usize = 32;
+const N: usize = 256;
 /// any reachable `Bytes` state over a symbolic buffer of length <= N: (bytes, buf, start, cursor)
 fn any_bytes<'a>(arr: &'a [u8; N]) -> (Bytes<'a>, &'a [u8], usize, usize) {
     let len: usize = kani::any_where(|l: &usize| *l <= N);
